@@ -18,6 +18,9 @@ import tempfile
 
 import common
 from common import run_check
+import re
+
+import vmodel
 import vprogs
 import vrun
 import c01
@@ -123,7 +126,7 @@ def fresh_versions(prog, root, cache):
     return cache[key]
 
 
-def scenario(prog, events, root):
+def scenario(prog, events, root, with_model=False):
     """run all events in one interpreter, querying after each; compare with fresh processes"""
     sub = tempfile.mkdtemp(prefix="ip_", dir=root)
     vprogs.write_package(prog, sub, "vpk")
@@ -137,7 +140,8 @@ def scenario(prog, events, root):
     cache = {}
     fails = []
     if out[0] != "ok":
-        return [dict(clause="program-imports", error=out[0])]
+        r = [dict(clause="program-imports", error=out[0])]
+        return (r, ([], 0)) if with_model else r
     for ei, (desc, idx, after, clones) in enumerate(marks):
         got = out[idx]
         if not isinstance(got, dict) or "error" in got:
@@ -166,7 +170,127 @@ def scenario(prog, events, root):
         if fails:
             break
     shutil.rmtree(sub, ignore_errors=True)
+    if with_model:
+        return fails, model_replay(prog, marks, events, out)
     return fails
+
+
+class CacheModel:
+    """drives `mmodel vcache` with the events of a scenario (names and tokens interned as in vmodel)"""
+
+    def __init__(self):
+        self.m = common.Model("vcache")
+        self.ids, self.toks, self.inst = {}, {}, {}
+
+    def close(self):
+        self.m.close()
+
+    def nid(self, key):
+        key = json.dumps(key)
+        if key not in self.ids:
+            self.ids[key] = len(self.ids) + 1
+        return self.ids[key]
+
+    def tok(self, key):
+        key = json.dumps(key, sort_keys=True)
+        if key not in self.toks:
+            self.toks[key] = len(self.toks) + 1
+        return self.toks[key]
+
+    def send(self, line):
+        out = self.m.send(line)
+        if out == "bad-op":
+            raise common.Infra("vcache model rejected %r" % line)
+        return out
+
+    def define(self, name, prog):
+        d = prog["defs"][name]
+        n = self.nid(name)
+        if d["kind"] == "var":
+            if d["value"] != "UNSUPPORTED":
+                self.send("sv %d %d" % (n, self.tok(["val", d["value"]])))
+            return
+        refs = []
+        for t, form in d["refs"]:
+            td = prog["defs"].get(t)
+            if form == "hidden":
+                continue
+            if form == "alias" and td is not None and td["where"] == d["where"]:
+                refs.append(self.nid(["alias", d["where"], t]))
+            else:
+                refs.append(self.nid(t))
+        tok = self.tok(["code", vprogs.render_def(name, d, prog, "P")])
+        rs = " ".join(str(r) for r in refs)
+        if d["kind"] == "memento":
+            e = common.hexs(d["explicit"]) if d.get("explicit") else "auto"
+            self.inst[name] = int(self.send(("dm %d %s %d %s" % (n, e, tok, rs)).strip()))
+        else:
+            self.inst.pop(name, None)
+            self.send(("dp %d %d %s" % (n, tok, rs)).strip())
+
+    def aliases(self, prog, where=None):
+        amap = prog.get("alias_map", {})
+        for name, d in prog["defs"].items():
+            if d["kind"] == "var":
+                continue
+            for t, form in d["refs"]:
+                if form == "alias" and t in prog["defs"] and prog["defs"][t]["where"] == d["where"] and where in (None, d["where"]):
+                    self.send("alias %d %d" % (self.nid(["alias", d["where"], t]), self.nid(amap.get(t, t))))
+
+    def load_initial(self, prog):
+        self.send("reset")
+        for where in ("aux", "mod"):                 # import order of the rendered package
+            for name in prog["order"]:
+                if prog["defs"][name]["where"] == where:
+                    self.define(name, prog)
+            self.aliases(prog, where)
+
+    def apply(self, acts, after):
+        for a in acts:
+            if a[0] in ("setvar", "mutate"):
+                self.define(a[2], after)
+            elif a[0] == "exec":
+                m = re.match(r"a_(\w+) = (\w+)\n$", a[2])
+                if m:
+                    self.send("alias %d %d" % (self.nid(["alias", a[1], m.group(1)]), self.nid(m.group(2))))
+                    continue
+                m = re.search(r"^def (\w+)\(", a[2], re.M) or re.match(r"(\w+) = lambda", a[2])
+                self.define(m.group(1), after)
+            elif a[0] == "clone":
+                self.inst[a[1]] = int(self.send("clone %d" % self.inst[a[2]]))
+            elif a[0] == "wrapper":
+                self.inst[a[1]] = int(self.send("wrapper %d" % self.nid(a[2])))
+
+    def query(self, obj):
+        return self.send("query %d" % self.inst[obj])
+
+
+def model_replay(prog, marks, events, out):
+    """the same events through the Lean model of the version cache: the equality pattern of the versions the real
+    objects report (over the whole scenario, per function) must be the model's"""
+    cm = CacheModel()
+    pairs = []
+    try:
+        cm.load_initial(prog)
+        for ei, (desc, idx, after, clones) in enumerate(marks):
+            if ei > 0:
+                cm.apply(events[ei - 1][1], after)
+            got = out[idx]
+            if not isinstance(got, dict) or "error" in got:
+                break
+            for obj in got:
+                base = obj if obj in after["defs"] else clones.get(obj)
+                if base is None or after["defs"].get(base, {}).get("kind") != "memento" or obj not in cm.inst:
+                    continue
+                if isinstance(got[obj], str) and got[obj].startswith("err:"):
+                    continue
+                mv = cm.query(obj)
+                if mv == "none":
+                    continue
+                pairs.append(("ev%d:%s" % (ei, obj), base + "#" + got[obj], base + "#" + mv))
+        return vmodel.partition_mismatches(pairs), len(pairs)
+    finally:
+        cm.close()
 
 
 def main(chk, replay=None):
@@ -204,14 +328,28 @@ def main(chk, replay=None):
         evs = gen_events(r, prog, r.randint(2, maxev))
         root = tempfile.mkdtemp(prefix="c13_", dir=chk.tmpdir())
         try:
-            fails = scenario(prog, evs, root)
+            fails, (mism, npairs) = scenario(prog, evs, root, with_model=True)
         finally:
             shutil.rmtree(root, ignore_errors=True)
-        return prog, evs, fails
+        return prog, evs, fails, mism, npairs
 
+    def work_corpus(item):
+        root = tempfile.mkdtemp(prefix="c13c_", dir=chk.tmpdir())
+        evs = [(e[0], e[1], e[2], e[3]) for e in item["events"]]
+        try:
+            fails, (mism, npairs) = scenario(item["program"], evs, root, with_model=True)
+        finally:
+            shutil.rmtree(root, ignore_errors=True)
+        return item["program"], evs, fails, mism, npairs
+
+    corpus = json.load(open(os.path.join(os.path.dirname(os.path.abspath(__file__)), "corpus_c13.json")))
     seeds = [rng.randrange(1 << 30) for _ in range(nprog)]
     with concurrent.futures.ThreadPoolExecutor(max_workers=8) as ex:
-        for prog, evs, fails in ex.map(work, seeds):
+        for prog, evs, fails, mism, npairs in list(ex.map(work_corpus, corpus)) + list(ex.map(work, seeds)):
+            chk.count("model-compared-versions", npairs)
+            for mm in mism[:2]:
+                chk.correspondence_break("vcache-model:partition:" + mm["kind"],
+                                         dict(mismatch=mm, program=prog, events=[list(e[:2]) for e in evs]))
             chk.case([prog, [e[0] for e in evs]], nontrivial=len(evs) >= 2, sample=dict(events=[e[0] for e in evs][:6], defs=list(prog["defs"])))
             for e in evs:
                 chk.count("event:" + e[0][0])
